@@ -130,7 +130,7 @@ func shaOf(s string) string {
 }
 
 func checkC14(c *Check) {
-	c.Rule = "event log {process, history, step, tree location, program, target} -> sha256(script) | error, checked offline: for each (program, target) all hashes must be equal. Histories: every ordered pair of (program, target) calls on one transpiler object, random histories of 3-15 calls on one object (fresh converter per call), edit histories (the tree under one path is overwritten between calls on one object with programs that share the main file's bytes but not the imports'), the whole corpus in N fresh processes (different map seeds), in 3 relocated copies of the source tree (deep path, path with blanks, relative path with another cwd), through the tsh command in five target orders, from a working directory holding look-alikes of the imported files (a std directory with other contents); secondary monitor: the Converter-boundary call trace of a recording wrapper must be identical for identical (program, target). Non-trivial = an observation of a program that transpiles successfully; distinct = (history, step)"
+	c.Rule = "event log {process, history, step, tree location, program, target} -> sha256(script) | error, checked offline: for each (program, target) all hashes must be equal. Histories: every ordered pair of (program, target) calls on one transpiler object, random histories of 3-15 calls on one object (fresh converter per call), edit histories (the tree under one path is overwritten between calls on one object with programs that share the main file's bytes but not the imports'), the whole corpus in N fresh processes (different map seeds), in 3 relocated copies of the source tree (deep path, path with blanks, relative path with another cwd), through the tsh command in five target orders, from a working directory holding look-alikes of the imported files (a std directory with other contents), under three other process environments (PATH, locale, HOME, SHELL, TMPDIR, TZ); secondary monitor: the Converter-boundary call trace of a recording wrapper must be identical for identical (program, target). Non-trivial = an observation of a program that transpiles successfully; distinct = (history, step)"
 	c.Assumptions = []string{"a fresh converter per Transpile call, as the anchor states the contract", "error texts may contain paths: for failing programs only 'is an error' is compared"}
 	corpus := c14Corpus(c)
 	root := filepath.Join(scratch(), "c14")
@@ -315,6 +315,37 @@ func checkC14(c *Check) {
 			shaW := extractJSONField(string(out), "batch")
 			record(c14Event{"decoyproc", "decoy-working-directory", i, "home", p.name, Bash, shaB.sha, shaB.isErr, ""})
 			record(c14Event{"decoyproc", "decoy-working-directory", i, "home", p.name, Batch, shaW.sha, shaW.isErr, ""})
+		}
+	}
+	// 5a'. processes with other environments (PATH with a directory holding other programs named bash / cmd first,
+	// empty PATH, other locale, HOME, SHELL, TMPDIR, TZ): the environment is not an input
+	{
+		exe, _ := os.Executable()
+		shim := filepath.Join(root, "shim bin")
+		os.MkdirAll(shim, 0o755)
+		for _, n := range []string{"bash", "sh", "cmd", "cmd.exe", "env"} {
+			os.WriteFile(filepath.Join(shim, n), []byte("#!/bin/sh\nexit 0\n"), 0o755)
+		}
+		envs := map[string][]string{
+			"path-shim-first": {"PATH=" + shim + ":/usr/bin:/bin", "HOME=/nonexistent", "SHELL=" + filepath.Join(shim, "bash")},
+			"path-empty":      {"PATH=", "HOME=" + root},
+			"locale-and-tz":   {"PATH=/usr/bin:/bin", "LANG=tr_TR.UTF-8", "LC_ALL=C", "TZ=Pacific/Kiritimati", "TMPDIR=" + shim, "USER=someone", "BASH=/opt/bash", "COMSPEC=C:\\x\\cmd.exe"},
+		}
+		for _, en := range sortedKeys(map[string]string{"path-shim-first": "", "path-empty": "", "locale-and-tz": ""}) {
+			for i, p := range corpus {
+				cmd := exec.Command(exe, "worker", "plain")
+				cmd.Env = envs[en]
+				cmd.Stdin = strings.NewReader(fmt.Sprintf("{\"id\":%d,\"main\":%q}\n", i, mainOf("home", p)))
+				out, err := cmd.Output()
+				if err != nil {
+					c.Inconclusive("environment-variant worker failed")
+					continue
+				}
+				shaB := extractJSONField(string(out), "bash")
+				shaW := extractJSONField(string(out), "batch")
+				record(c14Event{"envproc-" + en, "environment/" + en, i, "home", p.name, Bash, shaB.sha, shaB.isErr, ""})
+				record(c14Event{"envproc-" + en, "environment/" + en, i, "home", p.name, Batch, shaW.sha, shaW.isErr, ""})
+			}
 		}
 	}
 	// 5b. the tsh command as one more process kind: one invocation per target order (single targets, both orders,
